@@ -1242,7 +1242,14 @@ def gen_cases(ctx):
     return cases
 
 
-EVAL = {'parser': eval_parser, 'server': eval_server, 'client': eval_client, 'reading': eval_reading, 'lexer': eval_lexer}
+def _webclient(ctx, cases):
+    import c13_client          # the client *component* (circuits.web.client.Client) under the correspondence
+    for c in cases:
+        c13_client.replay(ctx, c)
+
+
+EVAL = {'parser': eval_parser, 'server': eval_server, 'client': eval_client, 'reading': eval_reading, 'lexer': eval_lexer,
+        'webclient': _webclient, 'weburl': _webclient}
 
 
 def params(ctx):
@@ -1297,6 +1304,8 @@ def run(ctx):
             LEXTIE.flush(ctx)
             if ctx.time_up():
                 return
+    import c13_client
+    c13_client.run(ctx)
 
 
 def search(ctx):
